@@ -26,7 +26,7 @@ CLAIMED = {
         "they coincide with the grid maps on the lattice; each lattice grid is evaluated three-way: spec / deepali / SimpleITK",
         "every lattice grid (sizes incl. 1, proper rotations, flips, permutations, both construction routes) is checked against the "
         "spec on Grid(origin=|center=), from_seq/from_numpy, from_sitk, Image.sitk/from_sitk, GridAttrs and file headers; SimpleITK "
-        "must agree with the spec on every case or the check fails as machinery error",
+        "must agree with the spec on every case or the check fails as machinery error also Grid.from_numpy(origin=True) and directly constructed GridAttrs (flat / matrix / nested direction)",
         "trusted: TLC, SimpleITK as the independent reference for the spec, float32 tolerance policy; rational rotations only",
         "DESIGN.md 3 C02",
     ),
@@ -48,7 +48,7 @@ CLAIMED = {
         "data shape, data vs ramp at the returned grid's world positions (with a contamination-aware notion of 'inside the field of view'), "
         "plus exact probe values computed by TLC",
         "chains up to length 2 over resize/resample/down/upsample/crop/pad/center crop/pad/narrow/ROI/avg_pool on oriented anisotropic "
-        "grids with either align_corners; an exception on an enabled operation is a violation",
+        "grids with either align_corners; an exception on an enabled operation is a violation; downsampling also through upsample(-levels); the original image sampled on every derived grid and batches sampled on a shared grid must obey the same ramp law",
         "trusted: TLC, GridOps (bound by C03), ramp exactness under linear interpolation/averaging; pyramid pre-smoothing switched off; "
         "flow-field variants and conv are not exercised here",
         "DESIGN.md 3 C04",
@@ -82,7 +82,7 @@ CLAIMED = {
         "must have that matrix, both round trips must be the identity, also after in-place and replacing parameter changes; velocity-field "
         "models through the TransformState histories that create inverses (InverseStaysInverse checked by TLC, histories replayed)",
         "all invertible linear classes and composites on the C06 lattice; SVF/SVFFD histories with inverse(link, update_buffers) up to the "
-        "bound plus simulated longer ones",
+        "bound plus simulated longer ones; inverse of the inverse and sequences starting with an inverted member",
         "trusted: as C06/C09; the accuracy clause for smooth non-affine velocity fields is not decided (DESIGN section 4)",
         "DESIGN.md 3 C07",
     ),
@@ -94,7 +94,7 @@ CLAIMED = {
         "rotation transforms' getters and setters, conversions judged in rotation-matrix space",
         "all 9 form pairs x 9 batch-shape pairs x D in {2,3}; the 12 proper orders (27 in thorough) x angle triples from quarter turns "
         "and Pythagorean angles in three order notations, unbatched/batched/homogeneous call forms; axis-angle and quaternions on "
-        "rational axes; an exception on a documented form is a violation",
+        "rational axes; an exception on a documented form is a violation; EulerRotation getters/setters with tensor, trainable and frozen Parameter holders",
         "trusted: TLC, Rat/RatLA/Rot, float64 atan2 of the rational (cos, sin) pairs in the harness",
         "DESIGN.md 3 C08",
     ),
@@ -107,7 +107,7 @@ CLAIMED = {
         "displacements); deeper histories from TLC -simulate",
         "exhaustive histories of the 14 public operations up to length 3 (4 thorough) for each kind x holder, plus simulated histories "
         "of length up to 9 (12); an observation outside the admissible set, a wrong grid after grid_/grid, or an exception on an enabled "
-        "operation is a violation",
+        "operation is a violation; the composite kind also with predicted linear members (call observations)",
         "trusted: TLC, the version<->constant-world-displacement encoding (exact for these models), harness/dv/tstate.py; composites "
         "covered by C06/C07",
         "DESIGN.md 3 C09, Appendix A.1",
@@ -118,7 +118,7 @@ CLAIMED = {
         "checks invertibility / path independence; the real FlowFields/FlowField objects must convert (16 pairs), resample, warp a ramp image "
         "and exponentiate identically in every representation",
         "world-constant fields on oriented anisotropic 2-D/3-D grids for axes()/sample()/warp_image()/normalize_flow/denormalize_flow and "
-        "per-field-grid batches; hull-invariant affine velocity fields for exp() in each representation",
+        "per-field-grid batches; hull-invariant affine velocity fields for exp() in each representation; batches sampled on per-field target grids",
         "trusted: TLC, GridDefs (C01), the exactness of constant/affine fields under linear interpolation",
         "DESIGN.md 3 C10",
     ),
@@ -146,7 +146,7 @@ CLAIMED = {
         "exact affine algebra: composition (A+B+BA, a+b+Ba), Lie bracket with explicit derivative units, BCH truncations 0..5 (Jacobi "
         "identity checked by TLC), exact first logv iterates; compose_flows, lie_bracket, compose_svfs, logv compared at every grid point for "
         "both align_corners conventions",
-        "all ordered pairs of the field lattice (incl. non-commuting pairs) x 6 BCH orders; commuting pairs reduce to the sum (TLC law)",
+        "all ordered pairs of the field lattice (incl. non-commuting pairs) x 6 BCH orders; commuting pairs reduce to the sum (TLC law); antisymmetry with Gaussian pre-smoothing; covariance of bracket and BCH series under a change of units",
         "trusted: TLC; approximation-error clauses for smooth non-affine fields are not decided (DESIGN section 4)",
         "DESIGN.md 3 C13",
     ),
@@ -206,7 +206,7 @@ CLAIMED = {
         "chain TLC generates is replayed through real files with the content compared after each step",
         "160 (grid, channels) leaves x dtypes x compress x 5 formats x 2 writers x 2 readers (all 5 dtypes in the thorough tier, 2 per leaf quick); every "
         "chain of length 2 exhaustively, 2500 (40000 thorough) seeded chains of length 3 (4); oriented anisotropic 2-D/3-D grids incl. size-1 axes, "
-        "flips, rational rotations; flows in all four axes",
+        "flips, rational rotations; flows in all four axes; to_uri/from_uri entry points; single-slice volumes",
         "trusted: TLC; SimpleITK/nibabel as installed (files SimpleITK writes are themselves checked against the specification; disagreement stops "
         "the check as a machinery error); tolerance 2e-6 relative on geometry, exact on voxels",
         "DESIGN.md 3 C18",
@@ -219,7 +219,7 @@ CLAIMED = {
         "per-item grids; longer random programs are recorded and validated by Trace_Batch; collate_samples as concatenation",
         "exhaustive over an alphabet of ~80 concrete torch calls for programs of length <= 2; the invariant WellDescribed (one grid "
         "per entry, shape match, entry i carries the grid of the item whose data it holds, axes kept) is checked on the model and "
-        "the implementation's answer must be one the model admits; a dispatcher exception on an op torch accepts is a violation",
+        "the implementation's answer must be one the model admits; a dispatcher exception on an op torch accepts is a violation; splits into three sections",
         "trusted: TLC, the effect table in MC_Batch.tla, the projection (constant-filled items identify data, unique centres identify "
         "grids); operations that mix data of several items are outside the statement and not constrained",
         "DESIGN.md 3 C19",
